@@ -78,10 +78,10 @@ func aggregateStates(h *c07.Host) []sdk.Context {
 		if err != nil {
 			panic(err)
 		}
-		if _, err := k.AddCoin(ctx, Meta("bcoin", "bcoin"), p.ERC20Address); err != nil {
+		if _, err := k.AddCoin(ctx, Meta("bcoin", "Coin B"), p.ERC20Address); err != nil {
 			panic(err)
 		}
-		if _, err := k.RegisterCoin(ctx, Meta("ccoin", "ccoin")); err != nil {
+		if _, err := k.RegisterCoin(ctx, Meta("ccoin", "Coin C")); err != nil {
 			panic(err)
 		}
 		tok := world.DeployERC20From(h.C, ctx, h.C.Accounts["r1"].Eth, "ext")
